@@ -788,6 +788,8 @@ def s_add(a, b):
 
 
 def s_mul(a, b):
+    if OP_HOOK is not None:
+        OP_HOOK('mul', a, b)
     if isinstance(a, bool) and isinstance(b, bool):
         return a and b
     if (isinstance(a, (bool, Unk)) and isinstance(b, (bool, Unk))):
@@ -805,7 +807,12 @@ def s_mul(a, b):
     return _wrap2(operator.mul, 'mul')(a, b)
 
 
+OP_HOOK = None            # rule hook: called as OP_HOOK(kind, a, b) for every scalar division / multiplication of the run
+
+
 def s_div(a, b):
+    if OP_HOOK is not None:
+        OP_HOOK('div', a, b)
     if isinstance(a, Choice) or isinstance(b, Choice):
         return _lift_choice(s_div, a, b)
     if isinstance(a, (bool, int)) and isinstance(b, (bool, int)) and not isinstance(a, Unk):
